@@ -214,6 +214,43 @@ func (e *Env) Close() {
 // Session plays the client bytes (then half-closes) against a real session and returns every
 // byte the server sent. The connection is an in-memory pair (see bufconn.go).
 func (e *Env) Session(stream []byte) ([]byte, error) {
+	return e.SessionNet([][]byte{stream}, "eof")
+}
+
+// ParseNet decodes a stream field: hex chunks separated by '~' (a pause longer than the idle timeout between
+// two chunks), optionally followed by "!idle" (the client stays silent at the end) or "!err" (the connection
+// breaks); a plain hex field is one chunk ended by EOF.
+func ParseNet(field string) ([][]byte, string) {
+	fin := "eof"
+	if i := strings.IndexByte(field, '!'); i >= 0 {
+		fin, field = field[i+1:], field[:i]
+	}
+	var chunks [][]byte
+	for _, h := range strings.Split(field, "~") {
+		chunks = append(chunks, vh.U(h))
+	}
+	return chunks, fin
+}
+
+// NetField is the inverse of ParseNet.
+func NetField(chunks [][]byte, fin string) string {
+	hs := make([]string, len(chunks))
+	for i, c := range chunks {
+		hs[i] = vh.H(c)
+	}
+	f := strings.Join(hs, "~")
+	if fin != "eof" && fin != "" {
+		f += "!" + fin
+	}
+	return f
+}
+
+// SessionNet runs one session over a scripted connection (see BufConn.Finish).
+func (e *Env) SessionNet(chunks [][]byte, fin string) ([]byte, error) {
+	if len(chunks) == 0 {
+		chunks = [][]byte{nil}
+	}
+	stream := chunks[0]
 	client, server := NewBufConnPair()
 	done := make(chan struct{})
 	go func() {
@@ -222,7 +259,7 @@ func (e *Env) Session(stream []byte) ([]byte, error) {
 	}()
 	go func() {
 		client.Write(stream)
-		client.CloseWrite()
+		client.Finish(chunks[1:], fin)
 	}()
 	type res struct {
 		out []byte
@@ -501,13 +538,15 @@ func SortWithinBoxes(dump string) string {
 // replies, mail table, rcpt table, hdr table, store dump, status.
 func Exec(in []string) []string {
 	c := ParseCfg(in[:NFields])
-	stream := vh.U(in[NFields])
+	chunks, fin := ParseNet(in[NFields])
+	// parser facts for every line the session can see: a pause makes the bytes before it a line of their own
+	stream := bytes.Join(chunks, []byte("\n"))
 	env, err := NewEnv(c, "", config.Storage{MailboxMsgCap: 0})
 	if err != nil {
 		return []string{"SETUPERR", vh.HS(err.Error())}
 	}
 	defer env.Close()
-	out, err := env.Session(stream)
+	out, err := env.SessionNet(chunks, fin)
 	status := "ok"
 	if err != nil {
 		status = "err:" + vh.HS(err.Error())
